@@ -10,7 +10,11 @@ git -C /repo worktree add -q --detach "$wt" HEAD || exit 3
 (cd /repo && find src -name '*.so' | while read f; do cp "$f" "$wt/$f"; done)
 cd "$wt"
 export PYTHONPATH="$wt/src"
-run_eq() { (cd "$wt" && timeout 900 /venv/bin/python "$src/equiv.py" 2>&1 | tail -5 | md5sum | cut -c1-16); }
+# the digest is every long hex token the script prints (sha256 etc.); scripts that
+# print none are compared on their last lines
+run_eq() { (cd "$wt" && timeout 1200 /venv/bin/python "$src/equiv.py" > "$wt/_equiv.out" 2>&1;
+            if grep -qoE '[0-9a-f]{32,}' "$wt/_equiv.out"; then grep -oE '[0-9a-f]{32,}' "$wt/_equiv.out" | md5sum | cut -c1-16;
+            else tail -5 "$wt/_equiv.out" | md5sum | cut -c1-16; fi); }
 pre=$(run_eq)
 if ! git apply --3way "$src/patch.diff" > "$wt/_apply.out" 2>&1; then
   echo "$dest: PATCH DOES NOT APPLY: $(head -3 $wt/_apply.out | tr '\n' ' ')"; cd /; git -C /repo worktree remove --force "$wt"; exit 2
